@@ -22,9 +22,7 @@ func init() {
 		Run: runK10})
 }
 
-var k10Waivers = map[string]string{
-	"internal/decoder/jitdec.(_Assembler)._asm_OP_bin": "the encoded text is parked in the destination slot for a few instructions and replaced through WriteRecNotAX before the base64 decoder runs; it points into the caller's input, which the frame's argument map keeps alive",
-}
+var k10Waivers = map[string]string{}
 
 func runK10(c *core.Ctx) {
 	p := c.Prog
